@@ -32,7 +32,7 @@ def project(rng):
     files["tests/test_sample.py"] = "def test_it(a):\n    print(a)\n    return a * 5151\n"
     files["examples/demo.rs"] = "fn demo(v: Vec<i32>) -> i32 {\n    let x = v.first().unwrap();\n    *x * 6161\n}\n"
     files["pkg/build/gen.py"] = "def gen(a):\n    return a * 7171\n"
-    files["pkg/util.py"] = "def util(a):\n    print(a)\n    return a * 8181\n"
+    files["pkg/util.py"] = "def util(a, verbose, logger):\n    print(a)\n    if verbose:\n        logger.info(\"starting\")\n    return a * 8181\n"
     files["pkg/skipped.py"] = "def skipped(a):\n    print(a)\n    return a * 9191\n"
     files["vendor/lib.py"] = "def lib(a):\n    print(a)\n    return a * 9292\n"
     # repository-level ignore patterns are relative to the project root, wherever the command is run from
